@@ -1,1 +1,128 @@
 // contracts and harnesses for src/broadcast.rs (included as multiqueue2::broadcast::verif_contracts)
+//
+// S14/S15 (bounded stand-in, labelled so; run NATIVELY on the real crate with hooks on -- under Kani the
+// real Arc/VecDeque heap objects of the public constructors exhaust CBMC): the public broadcast API driven through one concrete
+// history per requested capacity -- constructor, N accepted sends, the (N+1)-th refused, a second
+// stream, drains through every receive entry point and iterator, handle conversions, disconnect,
+// full teardown -- with SYMBOLIC payload values, against the reference model's answers, with the
+// payload ledger (every payload dropped exactly once) and the allocation ledger (everything the
+// queue allocated is released).  Histories are concrete: this is a bounded check, not a proof.
+
+use super::*;
+use crate::verif_hooks::pay::{self, Pay};
+use crate::verif_hooks::*;
+
+/// the property's normalisation of requested capacities 0..9
+pub(crate) fn expected_n(cap: u64) -> usize {
+    match cap {
+        0 | 1 => 1,
+        2 => 2,
+        3 | 4 => 4,
+        5..=8 => 8,
+        _ => 16,
+    }
+}
+
+impl<T: Clone> BroadcastSender<T> {
+    pub(crate) fn vf_expected_n(cap: u64) -> usize {
+        expected_n(cap)
+    }
+    /// entry point for the native bounded runs (tools/gen_dispatch.py)
+    pub(crate) unsafe fn vf_e2e(cap: u64) {
+        e2e_broadcast(cap)
+    }
+}
+
+pub(crate) unsafe fn e2e_broadcast(cap: u64) {
+    ledger::ON = true;
+    ledger::CAP_USED = ledger::CAP;
+    let n = expected_n(cap);
+    let base: usize = rt::oracle_usize();
+    rt::assume(base < 1000);
+    {
+        let (tx, rx) = broadcast_queue_with::<Pay, EWait>(cap, EWait { notify: false });
+        // C03/C09: exactly N consecutive sends are accepted on a drained queue
+        let mut j = 0;
+        while j < n {
+            assert!(tx.try_send(Pay::new(base + j)).is_ok(), "C03/C09: fewer than N sends accepted on a fresh queue");
+            j += 1;
+        }
+        match tx.try_send(Pay::new(base + 99)) {
+            Err(TrySendError::Full(p)) => assert!(p.val == base + 99, "C01/C09: refused value handed back"),
+            _ => assert!(false, "C03/C09: the (N+1)-th send must be refused"),
+        }
+        // C10: a stream added now starts at the parent's position (0): it sees everything
+        let rx2 = rx.add_stream();
+        let mut j = 0;
+        while j < n {
+            match rx.try_recv() {
+                Ok(p) => assert!(p.val == base + j, "C02/C09: values arrive in send order"),
+                Err(_) => assert!(false, "C01/C09: an accepted value is missing"),
+            }
+            j += 1;
+        }
+        assert!(rx.try_recv() == Err(TryRecvError::Empty), "C09: drained stream reports Empty");
+        // C03: the second stream still holds everything: the queue is still full
+        match tx.try_send(Pay::new(base + 98)) {
+            Err(TrySendError::Full(_)) => {}
+            _ => assert!(false, "C03/C10: the slowest stream must keep back-pressure"),
+        }
+        // view receiver on the second stream
+        let u = match rx2.into_single() {
+            Ok(u) => u,
+            Err(_) => {
+                assert!(false, "C09: into_single on a sole handle succeeds");
+                return;
+            }
+        };
+        match u.try_recv_view(|p: &Pay| p.val) {
+            Ok(v) => assert!(v == base, "C02/C09: second stream starts at the first value"),
+            Err(_) => assert!(false, "C01/C10: the added stream misses a value"),
+        }
+        // one slot is free now
+        assert!(tx.try_send(Pay::new(base + n)).is_ok(), "C03/C11: a freed slot is accepted");
+        // drain the second stream through the iterator forms
+        let mut cnt = 1;
+        for v in u.try_iter_with(|p: &Pay| p.val) {
+            assert!(v == base + cnt, "C02/C09: iterator yields values in order");
+            cnt += 1;
+        }
+        assert!(cnt == n + 1, "C01/C09: the second stream received every value exactly once");
+        let rx2 = u.into_multi();
+        let rx2b = rx2.clone();
+        assert!(!rx2b.unsubscribe(), "C11: unsubscribe on a non-last handle reports false");
+        // first stream: one value left
+        let mut it = rx.try_iter();
+        match it.next() {
+            Some(p) => assert!(p.val == base + n),
+            None => assert!(false, "C01/C09: value missing on the first stream"),
+        }
+        assert!(it.next().is_none());
+        // C07: sender disconnect
+        let tx2 = tx.clone();
+        drop(tx);
+        assert!(rx.try_recv() == Err(TryRecvError::Empty), "C07: a clone of the sender is still alive");
+        tx2.unsubscribe();
+        assert!(rx.try_recv() == Err(TryRecvError::Disconnected), "C07: drained and every sender gone");
+        assert!(rx.try_recv() == Err(TryRecvError::Disconnected), "C07: the end is reported on every later call");
+        assert!(rx2.recv().is_err(), "C07: blocking receive reports the end");
+        assert!(rx2.unsubscribe(), "C11: unsubscribe on the last handle reports true");
+        drop(rx);
+    }
+    assert!(pay::DOUBLE_DROP == 0 && pay::DROP_OF_UNCREATED == 0, "C05: double drop");
+    assert!(pay::live_count() == 0, "C05: a payload or clone was never dropped");
+    assert!(ledger::BAD_FREE == 0, "C16: double free");
+    assert!(ledger::LIVE_N == 0, "C17: memory still allocated after the last handle was dropped");
+}
+
+impl PartialEq for Pay {
+    fn eq(&self, o: &Pay) -> bool {
+        self.val == o.val
+    }
+}
+impl std::fmt::Debug for Pay {
+    fn fmt(&self, _f: &mut std::fmt::Formatter) -> std::fmt::Result {
+        Ok(())
+    }
+}
+
